@@ -65,6 +65,12 @@ def rand_stdin(rng):
 
 
 def cli_batch(binary, cases):
+    # the address-space limit is inherited by the spawner too: keep its batches small
+    if len(cases) > 3000:
+        out = []
+        for k in range(0, len(cases), 3000):
+            out.extend(cli_batch(binary, cases[k:k + 3000]))
+        return out
     lines = []
     for argv, stdin in cases:
         lines.append("a=" + ",".join(hx(x) for x in argv) + " in=" + stdin.hex())
